@@ -745,7 +745,6 @@ func unwrapIface(v ssa.Value) ssa.Value {
 	}
 }
 
-
 // evmTxFields: fields of the EVM adapter that hold per-transaction state; they are cleared by Finalise's deferred reset
 // (rule C06.memory.evm-epilogue checks that reset and that Apply always reaches Finalise).
 func evmPerTxField(key string) string {
